@@ -193,7 +193,7 @@ def instrument(sv, ctl, fine=False):
 def run_schedule(backend, prefix, reqs, choices, sleep=None, fine=False):
   """Runs `reqs` (one per thread) concurrently under the forced `choices`. Returns
   (responses, final snapshot, trace, events, deadlock)."""
-  rr = svcreal.RealRunner(backend)
+  rr = svcreal.make_runner(backend)
   for r in prefix:
     rr.step(r)
   before = rr.snapshot()
@@ -216,17 +216,19 @@ def run_schedule(backend, prefix, reqs, choices, sleep=None, fine=False):
     finally:
       ctl.finish()
   # the scripted Pythia keeps one `alg`; make it per-thread
-  orig_suggest, orig_es = rr.py.Suggest, rr.py.EarlyStop
+  # (with a real PythiaServicer in front of a scripted policy the entry point is the servicer's Pythia object)
+  entry = rr.py if hasattr(rr.py, 'Suggest') else rr.sv.default_pythia_service
+  orig_suggest, orig_es = entry.Suggest, entry.EarlyStop
   per_thread = {}
 
-  def Suggest(request):
+  def Suggest(*a, **kw):
     rr.py.alg = per_thread[ctl.tid()]['alg']
-    return orig_suggest(request)
+    return orig_suggest(*a, **kw)
 
-  def EarlyStop(request):
+  def EarlyStop(*a, **kw):
     rr.py.es = per_thread[ctl.tid()]['es']
-    return orig_es(request)
-  rr.py.Suggest, rr.py.EarlyStop = Suggest, EarlyStop
+    return orig_es(*a, **kw)
+  entry.Suggest, entry.EarlyStop = Suggest, EarlyStop
   for i, r in enumerate(reqs):
     per_thread[i] = {'alg': r.get('alg'), 'es': r.get('es')}
   threads = [threading.Thread(target=worker, args=(i,), daemon=True) for i in range(len(reqs))]
@@ -240,7 +242,7 @@ def run_schedule(backend, prefix, reqs, choices, sleep=None, fine=False):
   if not deadlock:
     for t in threads:
       t.join(timeout=10)
-  rr.py.Suggest, rr.py.EarlyStop = orig_suggest, orig_es
+  entry.Suggest, entry.EarlyStop = orig_suggest, orig_es
   final = None if deadlock else rr.snapshot()
   return {'resps': resps, 'final': final, 'before': before, 'trace': ctl.trace, 'events': ctl.events, 'deadlock': deadlock, 'blocked': ctl.blocked}
 
@@ -279,7 +281,7 @@ def explore(backend, prefix, reqs, limit=20000, use_sleep=True, fine=False):
 
 
 def serial(backend, prefix, reqs, order):
-  rr = svcreal.RealRunner(backend)
+  rr = svcreal.make_runner(backend)
   for r in prefix:
     rr.step(r)
   resps = [None] * len(reqs)
